@@ -58,7 +58,8 @@ def handleC05 (op : String) (fields : List String) : Option String :=
       match genProgram cmds {} with
       | .error _ => some "RES GENERR"
       | .ok bc =>
-        match runFilesL 20000 400000 md ((fname.splitOn ",").map (·.toUTF8.toList)) bc fs with
+        match (if fname == "DIR" then runFilesDir 20000 400000 md bc fs
+               else runFilesL 20000 400000 md ((fname.splitOn ",").map (·.toUTF8.toList)) bc fs) with
         | some (.ok (ms, fs')) => some ("RES " ++ resStr (some (.ok ms)) ++ "\tFS " ++ fsStr fs')
         | some (.panic _) => some "RES PANIC"
         | _ => some "RES DIVERGE"
